@@ -324,8 +324,12 @@ def run(ck):
     if os.environ.get('VERIF_COVERAGE'):
         return coverage_run(ck)
     ck.level = 'proof'
+    tr_err = C14.regen_guards(ck)
+    if tr_err:
+        ck.add_violation('translator:sol-guards', 'the integer decisions / format strings of the SOL writer and reader could not be re-translated from the source: %s' % tr_err,
+                         {'translator': 'translators/gen_solguards.py', 'output': tr_err}, found_input=False)
     proof_ok, failing = ck.proof_stage('MpVerif.C05.Props', 'MpVerif/C05/Props.lean', 'C05_',
-                                        ['MpVerif/C05/*.lean', 'MpVerif/C14/Model*.lean', 'MpVerif/C14/Lemmas*.lean'], expect_min=19)
+                                        ['MpVerif/C05/*.lean', 'MpVerif/C14/Model*.lean', 'MpVerif/C14/Lemmas*.lean', 'MpVerif/Gen/SolGuards.lean'], expect_min=22)
     ck.log('proof stage: ok=%s failing=%s' % (proof_ok, failing[:12]))
     if ck.tier == 'thorough' and proof_ok:
         bad = ck.leanchecker(['MpVerif.C05.Props'])
